@@ -1168,6 +1168,10 @@ func (fc *funcContext) translateConversion(expr ast.Expr, desiredType types.Type
 		case isFloat(t):
 			if t.Kind() == types.Float32 && exprType.Underlying().(*types.Basic).Kind() != types.Float32 {
 				// Conversion from float64 or from an integer rounds to single precision.
+				if is64Bit(exprType.Underlying().(*types.Basic)) && fc.pkgCtx.Types[expr].Value == nil {
+					// Going through float64 would round a 64-bit integer twice.
+					return fc.formatExpr("$flatten64f32(%e)", expr)
+				}
 				return fc.formatExpr("$fround(%f)", expr)
 			}
 			return fc.formatExpr("%f", expr)
